@@ -120,6 +120,8 @@ class StmtMixin:
             idx = self.eval(target.slice, fr) if not isinstance(target.slice, ast.Slice) else None
             if idx is None:
                 raise Unsupported("slice store")
+            if isinstance(target.value, ast.Attribute):
+                self.check_at(st, fr, "store[]:" + target.value.attr, v, index=idx, node=target)
             self.store_index(base, idx, v, target, fr)
             return
         raise Unsupported(f"assignment target {type(target).__name__}")
@@ -505,6 +507,18 @@ class StmtMixin:
         # 1. invariant holds on entry
         for label, expr in inv:
             self.oblige("INV-init", f"{site}/{label}", self.spec_bool(expr, fr, label), st)
+        # 1b. modular cut (contract option "modular"): the continuation from this loop head is explored once, from
+        #     the invariant alone - the path-specific prefix is forgotten (classic Hoare-style loop rule)
+        if lc.get("modular") and fr is self.frames[0]:
+            bound = tuple(sorted(n for n, v in fr.locals.items() if v is not UNBOUND and not n.startswith("_it")))
+            key = (k, bound)
+            here = tuple(c for c, _ in self.dec.trace)
+            first = self.loops_explored.get(key)
+            if first is None:
+                self.loops_explored[key] = here
+            elif first != here:
+                raise PathEnd()  # another prefix already explores the continuation from this loop head
+            self.modular_reset(st, fr, lc)
         # 2. havoc
         names, heap_paths = self.havoc_targets(st, fr)
         self._for_targets = assigned_names([st.target]) if isinstance(st, ast.For) else set()
@@ -554,6 +568,56 @@ class StmtMixin:
                 self.oblige("DEC", site, z3.And(d1 < dec0, dec0 > 0), st)
             raise PathEnd()
         return False
+
+    def modular_reset(self, st, fr, lc):
+        """forget the path: pc := preconditions; every local assigned so far and every heap location written so far
+        gets a fresh value (constrained only by the invariant that is assumed next)"""
+        types = lc.get("types", {})
+        params = {a.arg for a in fr.fn.args.args}
+        self.pc = list(self.base_pc)
+        self.solver = z3.Solver()
+        self.solver.set("timeout", self.feas_timeout_ms)
+        from .engine import has_quant
+
+        for c in self.pc:
+            if not has_quant(c):
+                self.solver.add(c)
+        for ax in self.def_axioms:
+            self.assume(ax)
+        for n in sorted(fr.locals):
+            v = fr.locals[n]
+            if n in params or v is UNBOUND or n.startswith("_it"):
+                continue
+            if isinstance(v, (VFunc, VModule)):
+                continue
+            fr.locals[n] = self.havoc_value(v, n, types) if not (isinstance(v, (VObj, VTuple, VNone, VElem)) and n not in types) else v
+        for (ref, fld) in list(self.heap):
+            cur = self.heap[(ref, fld)]
+            owner = None
+            for cls_, sch in SCHEMA.items():
+                pass
+            # find the schema type through the owner's class: the owner is reachable from the frame's parameters
+            sty = self.field_type_of(ref, fld, fr)
+            if sty is None:
+                continue
+            if isinstance(cur, VList):
+                if cur.ref in self.payload:
+                    self.havoc_payload(cur.ref, f"{ref}.{fld}")
+            elif sty in ("int", "bool", "atom", "str"):
+                self.heap[(ref, fld)] = self.sym_for_type(sty, self.new_ref(f"{ref}.{fld}"))
+        for ref in list(self.payload):
+            if ref in self.payload0:  # entry lists that were written: fresh contents
+                self.havoc_payload(ref, ref)
+
+    def field_type_of(self, ref, fld, fr):
+        for v in fr.locals.values():
+            if isinstance(v, VObj) and v.ref == ref and v.cls in SCHEMA:
+                return SCHEMA[v.cls].get(fld)
+        # nested objects (state.md.options ...): look the class up through known heap objects
+        for (r2, f2), val in list(self.heap0.items()) + list(self.heap.items()):
+            if isinstance(val, VObj) and val.ref == ref and val.cls in SCHEMA:
+                return SCHEMA[val.cls].get(fld)
+        return None
 
     def s_With(self, st, fr):
         raise Unsupported("with")
